@@ -91,18 +91,25 @@ def specifier_table(zone_info, start_year, until_year, **opts):
             y0 = calendar.timegm((y, 1, 1, 0, 0, 0)) - 946684800    # the first day is only reachable through year y-1; judged from Jan 2
             y0 += 86400
         trs = zs.transitions
-        cur = None
-        for t in trs:
-            if t.startEpochSecond <= y0:
-                cur = t
-        rows = []
-        if cur is not None:
-            rows.append((y0, cur.offsetSeconds + cur.deltaSeconds, cur.deltaSeconds, cur.abbrev))
-        for t in trs:
-            if y0 < t.startEpochSecond < y1:
-                rows.append((t.startEpochSecond, t.offsetSeconds + t.deltaSeconds, t.deltaSeconds, t.abbrev))
-        if cur is None and rows and rows[0][0] != y0:
-            rows.insert(0, (y0, None, None, None))
+        def lookup(t):
+            # the scan of ZoneSpecifier._find_transition_for_seconds(), verbatim: the answer changes only at a
+            # startEpochSecond, so evaluating it at every start value gives the exact piecewise-constant function even
+            # when the list holds zero-length or out-of-order entries
+            m = None
+            for tr in trs:
+                if tr.startEpochSecond <= t:
+                    m = tr
+                elif tr.startEpochSecond > t:
+                    break
+            return m
+        def row(t0):
+            m = lookup(t0)
+            return (t0, None, None, None) if m is None else (t0, m.offsetSeconds + m.deltaSeconds, m.deltaSeconds, m.abbrev)
+        rows = [row(y0)]
+        for b_ in sorted({t.startEpochSecond for t in trs if y0 < t.startEpochSecond < y1}):
+            rows.append(row(b_))
+        if rows[0][1] is None and len(rows) == 1:
+            rows = []
         for r in rows:
             if out and out[-1][1:] == r[1:]:
                 continue
